@@ -21,7 +21,7 @@ META = {
     "assumptions": ["field-wise equality: numbers as floats (nan/inf by class), sequences modulo tuple/list; non-numeric distribution descriptors compared as strings"],
     "deciding": ["roundtrip:result-json", "roundtrip:region-dict"],
 }
-META["added"] = 'Added: finalize() makes the run inconclusive when a result class is never produced, quantile pairs with nan / inf, second rebuild from the same dictionary object and from its JSON text. lowest magnitude edge 0.0, lattices at longitudes >= 180.'
+META["added"] = 'Added: finalize() makes the run inconclusive when a result class is never produced, quantile pairs with nan / inf, second rebuild from the same dictionary object and from its JSON text. lowest magnitude edge 0.0, lattices at longitudes >= 180. second serialization of the same result object.'
 MANIFEST = {
     "technique": "boundary recorder on EvaluationResult.to_dict/from_dict, csep.write_json, csep.load_evaluation_result and CartesianGrid2D.to_dict/from_dict; results are produced by the library's own 19 evaluation functions on generated inputs; field-wise equality oracle; class-coverage ledger",
     "level_text": "Every result class the library can produce is obtained by actually running each of the 19 evaluation functions on generated inputs (including -inf, NaN, None and empty-distribution outcomes) and round-tripped through JSON; all documented fields must be equal and the class preserved; the ledger lists which function produced which class and a class never produced makes the run inconclusive. Unmasked Cartesian regions rebuilt from their dict must give the same cell for every probe.",
@@ -97,7 +97,22 @@ def roundtrip(ctx, res, rc, producer, tmp):
             ctx.violate("field differs after the JSON round trip", rc, observed={f: b if not isinstance(b, list) else b[:6]},
                         expected={f: a if not isinstance(a, list) else a[:6]}, tags=dict(tags, clause="field", field=f))
     ok, d, tb = ctx.call(res.to_dict)
-    if ok:
+    if not ok:
+        ctx.violate("serializing the same result object a second time raised", rc, observed=repr(d), tb=tb,
+                    tags=dict(tags, clause="second-serialization", exc=type(d).__name__))
+    else:
+        # the same object written a second time (working copy + archive copy) must load back equal as well
+        path2 = os.path.join(tmp, "res2.json")
+        okw, _w, tbw = ctx.call(csep.write_json, res, path2)
+        okl, back2, tbl = ctx.call(csep.load_evaluation_result, path2) if okw else (False, _w, tbw)
+        if not okl:
+            ctx.violate("serializing the same result object a second time raised", rc, observed=repr(back2), tb=tbl,
+                        tags=dict(tags, clause="second-serialization", exc=type(back2).__name__))
+        else:
+            for f in FIELDS:
+                if not field_equal(f, getattr(res, f), getattr(back2, f, "<missing>")):
+                    ctx.violate("field differs after the second JSON round trip of the same object", rc, observed={f: canon(getattr(back2, f, None))},
+                                tags=dict(tags, clause="field-second", field=f))
         ok2, b2, tb2 = ctx.call(type(res).from_dict, d)
         if not ok2:
             ctx.violate("from_dict(to_dict()) raised", rc, observed=repr(b2), tags=dict(tags, clause="dict-raised"))
